@@ -66,6 +66,10 @@ type Meta struct {
 	Stubs       []string // components that are stubs
 	FaultKinds  []string // counters that are fault kinds (reported as "faults_fired")
 	CaseTimeout time.Duration
+	// FreshProcessShrink: a candidate tape is only trusted when it fails in a fresh process
+	// (engines whose observations depend on process-wide state such as the race detector's
+	// shadow memory and report de-duplication).
+	FreshProcessShrink bool
 }
 
 // Engine is one property's simulated check.
@@ -166,6 +170,7 @@ func Main(engines ...Engine) {
 		replayDir = flag.String("replays", "", "directory for replay files")
 		replay    = flag.String("replay", "", "replay file to re-execute")
 		shrink    = flag.String("shrink", "", "internal: replay file to minimise in place")
+		evalFile  = flag.String("eval", "", "internal: run the case of a replay file and print the outcome as JSON")
 		knownPath = flag.String("known", "", "known findings file")
 		repoTree  = flag.String("repo-tree", "", "tree hash of /repo working tree")
 		scratch   = flag.String("scratch", os.TempDir(), "scratch directory")
@@ -205,6 +210,8 @@ func Main(engines ...Engine) {
 	}
 
 	switch {
+	case *evalFile != "":
+		os.Exit(doEval(e, x, *evalFile))
 	case *shrink != "":
 		os.Exit(doShrink(e, x, *shrink))
 	case *replay != "":
@@ -742,6 +749,36 @@ func doReplay(e Engine, x *Ctx, path string) int {
 	return exitViolation
 }
 
+type evalOut struct {
+	Class   string `json:"class"`
+	Tape    []int  `json:"tape"`
+	Message string `json:"message"`
+}
+
+// doEval runs the case of a replay file once and prints the outcome as JSON (used for
+// fresh-process minimisation).
+func doEval(e Engine, x *Ctx, path string) int {
+	rf, err := readReplay(path)
+	if err != nil {
+		fmt.Fprintln(os.Stderr, err)
+		return exitInfra
+	}
+	x.Tier = rf.Tier
+	t := ReplayTape(rf.Tape)
+	res, hp := runCase(e, t, rf.Case, x)
+	if hp != "" {
+		fmt.Fprintln(os.Stderr, hp)
+		return exitInfra
+	}
+	out := evalOut{Tape: t.Out}
+	if res.Violation != nil {
+		out.Class, out.Message = res.Violation.Class, res.Violation.Message
+	}
+	b, _ := json.Marshal(out)
+	fmt.Println("EVAL " + string(b))
+	return exitOK
+}
+
 // doShrink minimises the tape of a replay file in place: delete blocks, zero, halve and
 // decrement entries, keeping a candidate iff the same violation class reproduces.
 func doShrink(e Engine, x *Ctx, path string) int {
@@ -755,11 +792,43 @@ func doShrink(e Engine, x *Ctx, path string) int {
 	runs := 0
 	const budget = 400
 	deadline := time.Now().Add(12 * time.Minute)
+	fresh := e.Meta().FreshProcessShrink
+	budgetRuns := budget
+	if fresh {
+		budgetRuns = 60
+	}
+	exe, _ := os.Executable()
 	try := func(cand []int) ([]int, *Result, bool) {
-		if runs >= budget || time.Now().After(deadline) {
+		if runs >= budgetRuns || time.Now().After(deadline) {
 			return nil, nil, false
 		}
 		runs++
+		if fresh {
+			tmp := path + ".cand"
+			crf := *rf
+			crf.Tape = cand
+			writeReplay("", &crf, tmp)
+			defer os.Remove(tmp)
+			args := []string{"-property", e.ID(), "-tier", rf.Tier, "-eval", tmp}
+			for i, a := range os.Args {
+				if a == "-known" && i+1 < len(os.Args) {
+					args = append(args, "-known", os.Args[i+1])
+				}
+			}
+			outb, err := exec.Command(exe, args...).Output()
+			if err != nil {
+				return nil, nil, false
+			}
+			for _, l := range strings.Split(string(outb), "\n") {
+				if strings.HasPrefix(l, "EVAL ") {
+					var eo evalOut
+					if json.Unmarshal([]byte(l[5:]), &eo) == nil && eo.Class == class {
+						return eo.Tape, &Result{Violation: &Violation{Class: eo.Class, Message: eo.Message}}, true
+					}
+				}
+			}
+			return nil, nil, false
+		}
 		t := ReplayTape(cand)
 		xx := &Ctx{Tier: x.Tier, Known: x.Known}
 		res, hp := runCase(e, t, rf.Case, xx)
@@ -782,7 +851,7 @@ func doShrink(e Engine, x *Ctx, path string) int {
 	}
 	best = trim(best)
 	improved := true
-	for improved && runs < budget {
+	for improved && runs < budgetRuns {
 		improved = false
 		// truncate tail
 		for cut := len(best) / 2; cut >= 1; cut /= 2 {
@@ -826,7 +895,9 @@ func doShrink(e Engine, x *Ctx, path string) int {
 	// final run with tracing on, to materialise the minimised case
 	xx := &Ctx{Tier: x.Tier, Known: x.Known, Replay: true}
 	t := ReplayTape(best)
-	if r, hp := runCase(e, t, rf.Case, xx); hp == "" && r != nil && r.Violation != nil && r.Violation.Class == class {
+	if fresh {
+		// nothing: the confirming replay in a fresh process prints the trace
+	} else if r, hp := runCase(e, t, rf.Case, xx); hp == "" && r != nil && r.Violation != nil && r.Violation.Class == class {
 		res = r
 		rf.Trace = xx.Trace
 	}
